@@ -16,6 +16,9 @@ def own_mac_byte(st, b, i):
     want = ('in', 'port.mac', i)
     if b == want:
         return True
+    selt = ('sel', ('sym', 'rc.mac', -(1 << 31), (1 << 31) - 1), want, ZERO)
+    if b == st.canon(selt) or b == st.canon(want):
+        return True
     return b[0] == 'sel' and b[1] == ('sym', 'rc.mac', -(1 << 31), (1 << 31) - 1) and st.canon(b[2]) == want and st.canon(b[3]) == ZERO
 
 
